@@ -25,6 +25,7 @@ RULE = (
 ASSUMPTIONS = [
     "uniformity test is deterministic per seed with false-alarm probability < 1e-7 per run",
     "the random stream legitimately depends on the chunk size; only the count is compared across chunk sizes",
+    "'drawn from the supplied samples' is read as: every source row is drawn with equal probability (row frequencies within 6 sigma for N=20000, up to 7 rows)",
 ]
 
 
@@ -154,7 +155,7 @@ def uniform_case(draw):
         w[3] = min(90.0, w[2] + 5.0)
         if w[3] - w[2] < 5.0:
             w[2] = w[3] - 5.0
-    return {"window": w, "seed": draw(st.integers(0, 2**32 - 1)), "n": 20000}
+    return {"window": w, "seed": draw(st.integers(0, 2**32 - 1)), "n": 20000, "rows": draw(st.integers(1, 7))}
 
 
 def run_uniform(case):
@@ -164,8 +165,10 @@ def run_uniform(case):
 
     win = case["window"]
     ck = Checker(win[2] == -90.0 or win[3] == 90.0 or (win[3] - win[2]) > 40, classes=["touches-pole" if (win[2] == -90.0 or win[3] == 90.0) else "no-pole"])
+    k = int(case.get("rows", 0))
     try:
-        g = BoxRandoms(*win, seed=case["seed"])
+        # attribute samples with k distinct joint rows: every row is drawn equally often
+        g = BoxRandoms(*win, seed=case["seed"], weights=np.arange(1, k + 1, dtype=float) if k else None, redshifts=0.1 * np.arange(1, k + 1) if k else None)
         chunk = g(case["n"])
     except Exception as e:  # noqa
         ck.fail(f"generate|{exc_sig(e)}", f"{type(e).__name__}: {e}")
@@ -185,6 +188,13 @@ def run_uniform(case):
     chi2 = ((counts - n / 64.0) ** 2 / (n / 64.0)).sum()
     p = stats.chi2.sf(chi2, 63)
     ck.expect(p >= 1e-9, "uniform:not-uniform-in-area", f"chi2={chi2:.1f}, p={p:.2e}, window={win}")
+    if k:
+        wts = np.asarray(chunk["weights"], float)
+        zs = np.asarray(chunk["redshifts"], float)
+        ck.expect(np.allclose(zs, 0.1 * wts, rtol=1e-12, atol=0), "uniform:attributes-not-joint")
+        counts_k = np.array([(wts == i).sum() for i in range(1, k + 1)])
+        sig_k = math.sqrt(n * (1.0 / k) * (1.0 - 1.0 / k)) if k > 1 else 0.0
+        ck.expect(counts_k.sum() == n and np.all(np.abs(counts_k - n / k) <= 6 * sig_k + 1e-9), "uniform:attribute-rows-not-drawn-uniformly", f"row counts {counts_k.tolist()} for n={n}, {k} rows")
     mean_v = v.mean()
     sigma = math.sqrt(1.0 / 12.0 / n)
     ck.expect(abs(mean_v - 0.5) <= 6 * sigma, "uniform:mean-sin-dec", f"mean={mean_v:.5f} ({(mean_v - 0.5) / sigma:.1f} sigma), window={win}")
